@@ -134,6 +134,9 @@ def _pattern_operand(case):
 def run(case):
     bs = bitstring_module()
     op = case['op']
+    from vf.common import expand_bits
+    if isinstance(case['data'], dict):
+        case = dict(case, data=expand_bits(case['data']))
     data, pat = case['data'], case['pat']
     n = len(data)
     s_arg, e_arg = case['start'], case['end']
@@ -272,6 +275,40 @@ def run(case):
     return {'nt': nt, 'labels': labels}
 
 
+@st.composite
+def big_case_st(draw, tier):
+    """megabit-scale periodic data (stored compactly), windows near the ends and around power-of-two offsets, small counts"""
+    from vf.common import big_bits_st, expand_bits
+    spec = draw(big_bits_st())
+    n = spec['n']
+    unit = spec['unit']
+    op = draw(st.sampled_from(['find', 'rfind', 'findall', 'in', 'startswith', 'endswith', 'count', 'split', 'replace', 'cut']))
+    k = draw(st.integers(0, 3))
+    if k == 0:
+        pat = draw(pattern_st())                       # probably absent or very frequent
+    else:
+        rot = draw(st.integers(0, len(unit) - 1))
+        base = (unit[rot:] + unit[:rot]) * 3
+        pat = base[:draw(st.integers(1, min(len(base), 40)))]
+    edges = [0, 1, 7, 8, n - 1, n - 8, n - 9, n, n // 2, 65536, 65535, 8192, 524288, 262144 + 3]
+    a = draw(st.sampled_from(edges + [None]))
+    b = draw(st.sampled_from(edges + [None]))
+    if a is not None and b is not None and a > b:
+        a, b = b, a
+    a = None if a is None else max(0, min(a, n))
+    b = None if b is None else max(0, min(b, n))
+    case = {'op': op, 'cls': draw(cls_st), 'data': spec, 'pat': pat, 'start': a, 'end': b, 'ba': draw(st.sampled_from([None, False, True])), 'opt_ba': draw(st.sampled_from([False, False, True])),
+            'count': draw(st.sampled_from([1, 2, 5])) if op in ('findall', 'split', 'replace', 'cut') else None, 'pkind': 'obj'}
+    if op == 'replace':
+        case['cls'] = draw(st.sampled_from(MUTABLE))
+        case['new'] = draw(bits_st(max_len=12))
+    if op == 'cut':
+        case['bits'] = draw(st.sampled_from([n // 3 + 1, 65536, 8, 100000, n, n + 5]))
+    if op == 'count':
+        case['value'] = draw(st.booleans())
+    return case
+
+
 def known_none(case):
     return False
 
@@ -291,6 +328,7 @@ SUBCHECKS = [
     _sub('cut', ['cut'], 2000, 30000),
     _sub('split', ['split'], 4000, 80000),
     _sub('replace', ['replace'], 4000, 80000),
+    Sub('C07.big_data', run, strategy=big_case_st, examples={'quick': 300, 'thorough': 5000}),
     Sub('C07.long_data', run, strategy=lambda tier: case_st(['find', 'rfind', 'findall', 'split', 'replace', 'in'], max_len=17000, long=True),
         examples={'quick': 600, 'thorough': 12000}),
 ]
